@@ -16,7 +16,7 @@ DEFAULT_RULE = ("cases are deterministic functions of (VERIF_SEED, family, index
                 "grew to >= 2 nodes with at least one rejected validity query, or some call answered with a path, an error other than "
                 "Timeout, or a panic; distinct = distinct (world, parameters, script, planner) by SHA-1")
 
-PLANNER_COQ = ["Planners/Exec.v", "Planners/Decode.v"]
+PLANNER_COQ = ["Planners/Exec.v", "Planners/Decode.v", "Props/NonVacuous.v"]
 
 def planner_prop(props_files, finding_props, diff_fields=None, level="proof", **kw):
     d = {
